@@ -127,6 +127,29 @@ func checkMid(c *pbt.Case, r *pbt.R, sim string, e0 error, recv []byte, mid erro
 	var recO func(o, n *obs.Node)
 	recO = func(o, n *obs.Node) {
 		so, sn := errors.GetSafeDetails(o.Err), errors.GetSafeDetails(n.Err)
+		// ... and the safe details of a layer this process holds as an
+		// opaque value are the origin's (whatever the sender put on the wire).
+		// (every detail the origin reports; an encoder may put more on the wire
+		// than the type's own SafeDetails, e.g. the gRPC code)
+		missing := false
+		for _, d := range so.SafeDetails {
+			found := false
+			for _, x := range sn.SafeDetails {
+				if x == d {
+					found = true
+				}
+			}
+			if !found {
+				missing = true
+			}
+		}
+		// (first intermediary only: a process that knows barriers or secondary
+		// errors recomputes their details, which embed a rendering of the hidden
+		// error as that process sees it, so later ones receive other strings)
+		if strings.Contains(sim, "stage 1") && strings.Contains(fmt.Sprintf("%T", n.Err), "errbase.opaque") && missing {
+			r.Failf("opaque layer does not keep the origin's type name, mark or safe details",
+				"%s: layer %s: safe details at the origin %.300q, here %.300q\nspec %s", sim, so.OriginalTypeName, so.SafeDetails, sn.SafeDetails, c.Spec)
+		}
 		if so.OriginalTypeName != sn.OriginalTypeName ||
 			so.ErrorTypeMark.FamilyName != strings.TrimSuffix(sn.ErrorTypeMark.FamilyName, wire.UnkSuffix) ||
 			so.ErrorTypeMark.Extension != sn.ErrorTypeMark.Extension {
